@@ -89,7 +89,7 @@ func VerifC11FormParse() {
 	if vnd.Pick(2) == 0 {
 		w = vnd.Str(vnd.Len(vnd.Param("C11.KParse", 2, 3)))
 	} else {
-		w = vnd.StrOver(vnd.Len(vnd.Param("C11.KParseSigma", 4, 6)), "a&=+%2B \xc3\xa9\xff")
+		w = vnd.StrOver(vnd.Len(vnd.Param("C11.KParseSigma", 4, 5)), "a&=+%2B \xc3\xa9\xff")
 	}
 	u, err := Parse("http://h/?" + w)
 	if err != nil {
@@ -116,7 +116,7 @@ func symPair(k int) (string, string) {
 func VerifC11ListOps() {
 	_, sp := freshParams()
 	var ml []model.Pair
-	n := vnd.Len(vnd.Param("C11.NPairs", 2, 3))
+	n := vnd.Len(vnd.Param("C11.NPairs", 2, 2))
 	k := vnd.Param("C11.KName", 1, 2)
 	for i := 0; i < n; i++ {
 		nm, vl := symPair(k)
@@ -236,7 +236,7 @@ func VerifC11FormRoundTrip() {
 	for i := 0; i < n; i++ {
 		var nm, vl string
 		if vnd.Pick(2) == 0 {
-			nm, vl = vnd.Str(vnd.Len(vnd.Param("C11.KRoundFull", 1, 2))), vnd.Str(vnd.Len(vnd.Param("C11.KRoundFull", 1, 2)))
+			nm, vl = vnd.Str(vnd.Len(vnd.Param("C11.KRoundFull", 1, 1))), vnd.Str(vnd.Len(vnd.Param("C11.KRoundFull", 1, 1)))
 		} else {
 			nm, vl = symPair(vnd.Param("C11.KRoundSigma", 1, 2))
 		}
